@@ -43,7 +43,7 @@ ExistsErr == [exists |-> TRUE]
 AMOUNT == 1000000
 RATE == 10000
 OPENFEE == 1000
-Cfg == [chain |-> CHAIN, allow_new |-> TRUE, accept_all |-> TRUE, allow_peer |-> FALSE, suspect_peer |-> FALSE,
+Cfg == [chain |-> CHAIN, allow_new |-> TRUE, accept_all |-> cf.acceptall, allow_peer |-> FALSE, suspect_peer |-> FALSE,
         min_swap_msat |-> cf.minmsat, btc_enabled |-> TRUE, lbtc_enabled |-> TRUE, rate_ppm |-> RATE, has_peer_rate |-> FALSE,
         peer_rate |-> 0, wallet_sat |-> 100000000, open_fee_sat |-> OPENFEE, spendable_msat |-> 2000000000,
         receivable_msat |-> 2000000000, dup_pay |-> "cln", swap_vout |-> 0]
@@ -771,6 +771,15 @@ DoRestart ==
                      \o (IF ok THEN rel ELSE <<[ev |-> "stop", why |-> "upgrade refused"]>>)
           IN Commit(Ctx(n0, plan), pre, "restart", plan, StepRec("restart", <<>>, plan))
 
+\* The operator changes the policy at run time (RPC: allowswaprequests, addpeer / removepeer, addsuspeer / removesuspeer): the
+\* observer keeps the flags (they live in the policy file, so they survive restarts), requests and initiations read them.
+DoPolicy ==
+  /\ Idle /\ Settled /\ cf.policy /\ nd.up
+  /\ \E k \in {"disable", "enable", "suspect", "unsuspect", "allow", "disallow"} :
+       /\ CASE k = "disable" -> o.allowNew [] k = "enable" -> ~o.allowNew [] k = "suspect" -> ~o.susp /\ ~nd.suspfile [] k = "unsuspect" -> o.susp
+            [] k = "allow" -> ~o.allowed [] k = "disallow" -> o.allowed [] OTHER -> FALSE
+       /\ Commit(Ctx(nd, NoPlan), <<DriveEv("policy", [kind |-> k], NoPlan)>>, "policy", NoPlan, StepRec("policy", [kind |-> k], NoPlan))
+
 \* An upgrade from a release that spoke protocol 6: while the node is down, the stored record of a Liquid taker becomes a legacy
 \* record (harness step "downgrade": protocol_version 6 in request / agreement, no persisted anchor flag). Takers only: a maker's
 \* legacy record belongs to an output whose script was built with the legacy CSV, which a rewritten record cannot provide.
@@ -824,9 +833,9 @@ Drain ==
         /\ UNCHANGED <<sched, cf>>
 
 Init == /\ cf \in CONFIGS /\ o = ApplyEv(ObsInit, [ev |-> "reset", cfg |-> Cfg]) /\ viol = {} /\ nd = [NdInit EXCEPT !.ver = cf.ver] /\ sched = <<>>
-Next == DoLocal \/ DoMsg \/ DoBlock \/ DoPay \/ DoHtlc \/ DoTimer \/ DoRestart \/ DoStart \/ DoRecover \/ DoDowngrade \/ Drain
+Next == DoLocal \/ DoMsg \/ DoBlock \/ DoPay \/ DoHtlc \/ DoTimer \/ DoRestart \/ DoStart \/ DoRecover \/ DoDowngrade \/ DoPolicy \/ Drain
 Spec == Init /\ [][Next]_vars
 \* the view hides counters and histories that do not influence future behaviour (BFS reaches each view state first by a shortest path)
 NdView == [nd EXCEPT !.nsteps = 0, !.sentn = <<>>, !.keyn = 0, !.ptx = 0, !.epoch = 0, !.nrestarts = IF @ > MAXCRASHES THEN 1 ELSE 0, !.a = ""]
-View == <<cf.name, NdView, o.tip, o.tx, o.claim, o.paidin, o.now, o.allowNew, o.susp, o.open, o.spent, viol>>
+View == <<cf.name, NdView, o.tip, o.tx, o.claim, o.paidin, o.now, o.allowNew, o.susp, o.allowed, o.open, o.spent, viol>>
 ===============================================================================
